@@ -245,8 +245,10 @@ def run_async(cfg, prefix):
             d = os.path.join(work, "ix")
             os.makedirs(d)
             st = S.make_sched_storage(sch, d, lockreg)
+            sch.state_fn = lambda: S.dir_digest(d)
         else:
             st = S.make_sched_ram_storage(sch)
+            sch.state_fn = lambda: S.ram_digest(st)
         ix = st.create_index(c02.schema())
         w0 = ix.writer()
         c02.apply_ops(w0, [["add", "k0", "a"]])
@@ -349,6 +351,7 @@ def run_buffered(cfg, prefix):
         c02.apply_ops(w0, [["add", "k0", "a"]])
         w0.commit()
         bw = writing.BufferedWriter(ix, period=cfg.get("period"), limit=cfg["limit"])
+        sch.state_fn = lambda: (S.ram_digest(st), bw.bufferedcount, id(bw.writer) % 1000003)
         done = {}   # key -> True once add_document returned
         started = {}
 
@@ -418,6 +421,7 @@ def run_buffered(cfg, prefix):
 def explore_b(cfg, bound, max_execs, acc):
     runner = run_async if cfg["kind"] == "async" else run_buffered
     outcomes = {}
+    allstates = set()
 
     def make_run(prefix):
         return runner(cfg, prefix)
@@ -428,6 +432,9 @@ def explore_b(cfg, bound, max_execs, acc):
         acc.count("traces_validated_against_impl")
         acc.count("evaluations")
         acc.count("transitions", len(sch.decisions))
+        new = sch.states - allstates
+        allstates.update(new)
+        acc.count("states", len(new))
         if any(c for c in sch.choices):
             acc.count("distinct_nontrivial")
         for kind, text in outcome["problems"]:
@@ -445,7 +452,6 @@ def explore_b(cfg, bound, max_execs, acc):
     stats = None
     for b in range(0, bound + 1):
         stats = S.explore(make_run, b, max_execs, on_exec)
-        acc.count("states", stats["decisions"])
         if stats["capped"]:
             break
         completed = b
